@@ -100,6 +100,11 @@ pub struct CmpVT {
     /// the trait-level comparison functions (Quantity::eq / HasRefUnit::eq ..)
     pub trait_eq: fn(Q, Q) -> bool,
     pub trait_partial_cmp: fn(Q, Q) -> Option<Ordering>,
+    /// the trait-level arithmetic (`Quantity::add` / `HasRefUnit::add` ..
+    /// called by path, as generic code does), beside the operators
+    pub trait_add: fn(Q, Q) -> Q,
+    pub trait_sub: fn(Q, Q) -> Q,
+    pub trait_div: fn(Q, Q) -> AmountT,
     /// one value compared with itself *in place* (both operands are the same
     /// object): (==, !=, trait eq, partial_cmp)
     pub same_place: fn(Q) -> (bool, bool, bool, Option<Ordering>),
@@ -261,6 +266,9 @@ macro_rules! __dyn_cmp {
             partial_cmp: |a, b| PartialOrd::partial_cmp(&mk::<$T>(a), &mk::<$T>(b)),
             trait_eq: |a, b| <$T as $Tr>::eq(&mk::<$T>(a), &mk::<$T>(b)),
             trait_partial_cmp: |a, b| <$T as $Tr>::partial_cmp(&mk::<$T>(a), &mk::<$T>(b)),
+            trait_add: |a, b| un::<$T>(<$T as $Tr>::add(mk::<$T>(a), mk::<$T>(b))),
+            trait_sub: |a, b| un::<$T>(<$T as $Tr>::sub(mk::<$T>(a), mk::<$T>(b))),
+            trait_div: |a, b| <$T as $Tr>::div(mk::<$T>(a), mk::<$T>(b)),
             #[allow(clippy::eq_op)]
             same_place: |a| {
                 let x = mk::<$T>(a);
